@@ -151,9 +151,9 @@ func verifRound3(p *verifP, who int, in network.RoundMessages[*verifR2, *verifP]
 
 // H_echo_consistency: the obligation. If A and B both get past the echo comparison for sender S
 // then S's payloads were the same, under the premise that SHA3-256 does not collide on (p_A, p_B).
-// Also: the ghost counter of the unmarshal contract agrees with the result classification, the
-// payload handed to the unmarshal step for S is the one received in round 1, and each honest party
-// on its own detects the equivocation.
+// Also: the ghost counter of the unmarshal contract agrees with the result classification
+// (verifAssertGhost: not confirmable natively), and each honest party on its own detects the
+// equivocation.
 func H_echo_consistency() {
 	pA := verifBytes(verifLen(0, 2))
 	pB := verifBytes(verifLen(0, 2))
@@ -171,8 +171,8 @@ func H_echo_consistency() {
 	_, errB, passB := verifRound3(sc.b, 2, verifR2In(verifArbitraryEcho(verifA), sc.echoAtoB, verifA))
 	_, _ = errA, errB
 
-	verifAssert("echo.passed_iff_unmarshal_reached.A", passA == (verifUnmCalls[1] > 0))
-	verifAssert("echo.passed_iff_unmarshal_reached.B", passB == (verifUnmCalls[2] > 0))
+	verifAssertGhost("echo.passed_iff_unmarshal_reached.A", passA == (verifUnmCalls[1] > 0))
+	verifAssertGhost("echo.passed_iff_unmarshal_reached.B", passB == (verifUnmCalls[2] > 0))
 	if passA && passB {
 		verifReach("echo_both_pass")
 		verifAssert("echo.consistent_under_sha3_256_collision_freeness", bytes.Equal(pA, pB))
@@ -236,16 +236,16 @@ func H_echo_honest_accepts() {
 	outA, errA, passA := verifRound3(sc.a, 1, verifR2In(echoS(verifB, sc.mB), sc.echoBtoA, verifB))
 	outB, errB, passB := verifRound3(sc.b, 2, verifR2In(echoS(verifA, sc.mA), sc.echoAtoB, verifA))
 	verifAssert("honest.both_pass", passA && passB)
-	verifAssert("honest.unmarshal_reached", verifUnmCalls[1] > 0 && verifUnmCalls[2] > 0)
+	verifAssertGhost("honest.unmarshal_reached", verifUnmCalls[1] > 0 && verifUnmCalls[2] > 0)
 	if errA == nil {
 		verifReach("echo_honest_A_output")
 		verifAssert("honest.A_outputs_S_and_B", outA != nil && outA.Size() == 2 && outA.ContainsKey(verifS) && outA.ContainsKey(verifB))
-		verifAssert("honest.A_two_unmarshals", verifUnmCalls[1] == 2)
+		verifAssertGhost("honest.A_two_unmarshals", verifUnmCalls[1] == 2)
 		d0, d1 := verifUnmData[1][0], verifUnmData[1][1]
-		verifAssert("honest.A_unmarshals_exactly_the_round1_payloads",
+		verifAssertGhost("honest.A_unmarshals_exactly_the_round1_payloads",
 			(bytes.Equal(d0, p) && bytes.Equal(d1, sc.mB)) || (bytes.Equal(d1, p) && bytes.Equal(d0, sc.mB)))
 	} else {
-		verifAssert("honest.A_error_is_the_unmarshal_error", errors.Is(errA, verifErrUnmarshal))
+		verifAssertGhost("honest.A_error_is_the_unmarshal_error", errors.Is(errA, verifErrUnmarshal))
 	}
 	if errB == nil {
 		verifAssert("honest.B_outputs_S_and_A", outB != nil && outB.Size() == 2 && outB.ContainsKey(verifS) && outB.ContainsKey(verifA))
@@ -263,7 +263,9 @@ func H_echo_unmarshal_failure_is_reported() {
 	verifUnmFailAll = true
 	verifReach("echo_unmarshal_failure")
 	_, errA, passA := verifRound3(sc.a, 1, verifR2In(&verifR2{EchoHashes: map[sharing.ID][32]byte{verifB: echoHash(sc.mB)}}, sc.echoBtoA, verifB))
-	verifAssert("unmfail.error", errA != nil && passA && errors.Is(errA, verifErrUnmarshal) && verifUnmCalls[1] == 1)
+	// (natively the real UnmarshalCBOR rejects or accepts the symbolic byte on its own terms;
+	// what the contract was told to do is ghost state)
+	verifAssertGhost("unmfail.error", errA != nil && passA && errors.Is(errA, verifErrUnmarshal) && verifUnmCalls[1] == 1)
 }
 
 // H_echo_consistency_nopremise_INCONCLUSIVE: the same obligation WITHOUT the collision-freeness
